@@ -85,6 +85,10 @@ def _struct_escape_refs(label, body, m, arm):
     (2) compares the whole S with the S the same helper builds for the other operand (derived PartialEq: field by field).
     → (hids credited, opaque) — opaque: the value does leave in a struct but neither use was recognised."""
     tails = [t for t in _tail_values(arm["body"]) if isinstance(t, dict) and t.get("k") == "Struct" and isinstance(t.get("fields"), list) and "pats" not in t]
+    tup_tails = [t for t in _tail_values(arm["body"]) if isinstance(t, dict) and t.get("k") == "Tup"]
+    if not tails and tup_tails:
+        # the same with a tuple instead of a struct: components are matched by position
+        tails = [{"k": "Struct", "adt": "#tuple", "fields": [[str(i_), el] for i_, el in enumerate(tup_tails[0]["elems"])]}]
     if not tails:
         return set(), False
     holder = None
@@ -104,9 +108,12 @@ def _struct_escape_refs(label, body, m, arm):
     recognised = False
     # (1) `let S { a, b } = helper(self);` then a.hash(..) / a == ..
     for st in walk(body):
-        if st.get("k") == "Let" and "init" in st and peel(st["init"]) is holder and st["pat"].get("k") == "Struct" and st["pat"].get("adt") == S:
+        is_struct_pat = st.get("k") == "Let" and "init" in st and peel(st["init"]) is holder and st["pat"].get("k") == "Struct" and st["pat"].get("adt") == S
+        is_tuple_pat = st.get("k") == "Let" and "init" in st and peel(st["init"]) is holder and st["pat"].get("k") == "Tuple" and S == "#tuple"
+        if is_struct_pat or is_tuple_pat:
             recognised = True
-            for fname, sub in st["pat"]["fields"]:
+            pat_fields = st["pat"]["fields"] if is_struct_pat else [[str(i_), sp_] for i_, sp_ in enumerate(st["pat"]["pats"])]
+            for fname, sub in pat_fields:
                 if sub.get("k") != "Binding":
                     continue
                 for c in walk(body):
